@@ -472,6 +472,11 @@ func findRunStage(p *an.Prog) *ssa.Function {
 			continue
 		}
 		if len(an.CallsIn(fn, fnRunnerRun)) > 0 {
+			// a wrapper that is itself a Runner and hands its own argument on unchanged (logging, tracing) is not
+			// the function that runs a stage
+			if isRunnerForwarder(fn) {
+				continue
+			}
 			if out != nil {
 				return nil
 			}
@@ -799,4 +804,35 @@ func (s *sched) scheduleCallsIn(fn *ssa.Function) []ssa.CallInstruction {
 		}
 	})
 	return out
+}
+
+// isRunnerForwarder: fn is the Run method of a type of the module that implements runner.Runner, and every
+// Runner.Run it calls gets fn's own task parameter while its result is what fn returns.
+func isRunnerForwarder(fn *ssa.Function) bool {
+	if fn.Signature.Recv() == nil || fn.Name() != "Run" || len(fn.Params) != 2 || fn.Signature.Results().Len() != 1 {
+		return false
+	}
+	if !an.TypeIs(fn.Params[1].Type(), "pkg/task", "Task") || !an.IsErrorType(fn.Signature.Results().At(0).Type()) {
+		return false
+	}
+	calls := an.CallsIn(fn, fnRunnerRun)
+	if len(calls) != 1 {
+		return false
+	}
+	cc := calls[0].Common()
+	if len(cc.Args) != 1 || !an.SameValue(cc.Args[0], fn.Params[1]) {
+		return false
+	}
+	call, ok := calls[0].(*ssa.Call)
+	if !ok {
+		return false
+	}
+	for _, ret := range an.Returns(fn) {
+		for _, src := range an.Sources(an.RetVal(ret, 0)) {
+			if src != ssa.Value(call) {
+				return false
+			}
+		}
+	}
+	return true
 }
